@@ -84,6 +84,13 @@ class HeapRecorder:
         return res if out == 'ok' else None
 
 
+def sobs(t, sym):
+    """ structure-only observation (C15 does not need exact values; operands may legitimately hold non-integers after factorisations) """
+    o = T.alpha(t, sym, views=False, noent=True)
+    o['ent'] = [0] * min(int(np.asarray(t._data).size), 400)
+    return o
+
+
 def tensor_driver(args):
     sym, ferm, seed, nsteps = args
     rng = random.Random(seed)
@@ -92,7 +99,7 @@ def tensor_driver(args):
     H = HeapRecorder()
     regs = [T.build_init(cfg, sym, st) for st in inits]
     hid = [H.add(t) for t in regs]
-    obs = [T.alpha(t, sym, views=False) for t in regs]
+    obs = [sobs(t, sym) for t in regs]
     for _ in range(nsteps):
         r = rng.random()
         a = rng.randrange(len(regs))
@@ -119,7 +126,32 @@ def tensor_driver(args):
                     blk = t[tb]
                     blk[...] = blk * 2 + 1
                 H.call('inplace', 'block view write', wr, recv=hid[a])
-            obs[a] = T.alpha(regs[a], sym, views=False)
+            obs[a] = sobs(regs[a], sym)
+            continue
+        elif r < 0.48:
+            import yastn
+            t = regs[a]
+            if t.ndim < 2 or t.isdiag:
+                continue
+            p = list(range(t.ndim))
+            if rng.random() < 0.5:
+                rng.shuffle(p)
+            k = rng.randint(1, t.ndim - 1)
+            axes = (tuple(p[:k]), tuple(p[k:]))
+            which = rng.choice(('svdvals', 'svdvals', 'svd', 'qr', 'norm', 'svd_trunc'))
+
+            def fact():
+                if which == 'svdvals':
+                    return yastn.linalg.svd(t, axes=axes, compute_uv=False)
+                if which == 'svd':
+                    return list(yastn.linalg.svd(t, axes=axes, sU=rng.choice((1, -1))))
+                if which == 'svd_trunc':
+                    return list(yastn.linalg.svd_with_truncation(t, axes=axes, D_total=2))
+                if which == 'qr':
+                    return list(yastn.linalg.qr(t, axes=axes))
+                t.norm()
+                return None
+            H.call('pure', 'linalg.' + which, fact)
             continue
         else:
             op = T.choose_op(regs, obs, rng, PURE_W, sym, allow_invalid=0.05)
@@ -138,7 +170,7 @@ def tensor_driver(args):
                 continue                       # stays registered (and watched) in the recorder, but is not used as an operand
             regs.append(res)
             hid.append(H.ev[-1]['new'][0])
-            obs.append(T.alpha(res, sym, views=False))
+            obs.append(sobs(res, sym))
     return {'ev': H.ev, 'what': 'tensor %s ferm=%s seed=%s' % (sym, ferm, seed)}
 
 
@@ -166,7 +198,7 @@ def mps_driver(args):
         elif r < 0.25:
             res = H.call('pure', 'mps.shallow_copy', lambda: objs[a].shallow_copy())
         elif r < 0.55:
-            k = rng.choice(('canonize_first', 'canonize_last', 'truncate', 'orth', 'setitem', 'absorb'))
+            k = rng.choice(('canonize_first', 'canonize_last', 'truncate', 'orth', 'orth_only', 'orth_only', 'setitem', 'set_central', 'absorb'))
             o = objs[a]
 
             def f():
@@ -181,6 +213,14 @@ def mps_driver(args):
                     if o.pC is None:
                         o.orthogonalize_site_(rng.randrange(o.N), to=rng.choice(('first', 'last')))
                     o.absorb_central_(to=rng.choice(('first', 'last')))
+                elif k == 'orth_only':       # leaves a central block in place (copy()/clone() must copy it too)
+                    if o.pC is None:
+                        o.orthogonalize_site_(rng.randrange(o.N), to=rng.choice(('first', 'last')))
+                elif k == 'set_central':
+                    if o.pC is not None:
+                        blk = o.A[o.pC]
+                        tb = blk.get_blocks_charge()[0]
+                        blk[tb][...] = blk[tb] * 3       # block-view write into the central tensor
                 elif k == 'setitem':
                     n = rng.randrange(o.N)
                     o[n] = 2 * o[n]
